@@ -10,8 +10,10 @@
  * undecided for 40 min on MiniSat, CaDiCaL and Z3); it RECORDS in ghost slots 0/1 where each INTEGER was read
  * (offset, bytes available) and what the call answered (ok, total, inrange, scalar).  By PI_POST these answers
  * ARE spec_der_int at that position, so the framing obligations of der.sig_parse, read with
- * slot i = spec_der_int(buf + off_i, av_i), are literally the definition of spec_der_sig
- * (unit C03.der.spec_compose checks that unfolding mechanically). */
+ * slot i = spec_der_int(buf + off_i, av_i), are literally the definition of spec_der_sig: the harness uses
+ * the same spec_sig_framing / SPEC_SIG_ROFF.. / SPEC_SIG_OK pieces spec_der_sig is written with.
+ * (A mechanical check of that unfolding, two copies of the specification against each other, did not
+ * terminate in 15 min and is not part of the units.) */
 #ifndef C03_DER_CONTRACTS_H
 #define C03_DER_CONTRACTS_H
 
@@ -25,14 +27,13 @@ static int spec_scalar_is_zero(const secp256k1_scalar *a) { return (a->d[0] | a-
 /* abstract part (what the caller relies on); PEQ = pointer equality operator */
 #define PEQ_PLAIN(a, b) ((a) == (b))
 #define PEQ_DFCC(a, b) __CPROVER_pointer_equals((void *)(a), (void *)(b))
-#define PI_POST_ABS(PEQ, ret, r, newp, oldp, avail, I) \
-    (((ret) == 0 || (ret) == 1) && (ret) == (I).ok && ((I).inrange == 0 || (I).inrange == 1) && \
-     (!(ret) || ((I).total >= 3 && (I).total <= (avail) && PEQ((newp), (oldp) + (I).total) && scalar_ok(r) && \
-                 ((I).inrange || spec_scalar_is_zero(r)))))
+#define PI_ACCEPT(ret, I)   (((ret) == 0 || (ret) == 1) && (ret) == (I).ok && ((I).inrange == 0 || (I).inrange == 1))
+#define PI_ADVANCE(PEQ, ret, newp, oldp, avail, I) (!(ret) || ((I).total >= 3 && (I).total <= (avail) && PEQ((newp), (oldp) + (I).total)))
+#define PI_REDUCED(ret, r, I) (!(ret) || (scalar_ok(r) && ((I).inrange || spec_scalar_is_zero(r))))
+#define PI_VALUE(ret, r, oldp, I) (!(ret) || spec_scalar_byte((r), g_j) == spec_der_int_vbyte((oldp), (I), g_j))
+#define PI_POST_ABS(PEQ, ret, r, newp, oldp, avail, I) (PI_ACCEPT(ret, I) && PI_ADVANCE(PEQ, ret, newp, oldp, avail, I) && PI_REDUCED(ret, r, I))
 /* full contract = abstract part + the value */
-#define PI_POST(PEQ, ret, r, newp, oldp, avail, I) \
-    (PI_POST_ABS(PEQ, ret, r, newp, oldp, avail, I) && \
-     (!(ret) || spec_scalar_byte((r), g_j) == spec_der_int_vbyte((oldp), (I), g_j)))
+#define PI_POST(PEQ, ret, r, newp, oldp, avail, I) (PI_POST_ABS(PEQ, ret, r, newp, oldp, avail, I) && PI_VALUE(ret, r, oldp, I))
 
 /* ghost call log */
 int g_pi_n; size_t g_pi_off0, g_pi_off1, g_pi_av0, g_pi_av1; spec_int g_pi_cur, g_pi_I0, g_pi_I1; secp256k1_scalar g_pi_v0, g_pi_v1;
